@@ -98,7 +98,7 @@ static void begin_case(long k)
 	if (k >= 0) W().arm_step(k);
 }
 
-template<typename E> static void end_case(const char* outcome)
+template<typename E> static void print_case(const char* outcome, const std::string& prefix = std::string())
 {
 	W().disarm(); W().elogging = false;
 	std::map<uint64_t, const void*> addr_of;
@@ -135,20 +135,24 @@ template<typename E> static void end_case(const char* outcome)
 			if (i) blocks += " ";
 			if (it == W().objs.end()) blocks += "R";
 			else if (it->second.moved) blocks += "M";
-			else blocks += "L" + std::to_string(*e->p);
+			else blocks += "L" + std::to_string(**reinterpret_cast<int64_t* const*>(e));   // all kit elements: one int64_t* member
 		}
 		blocks += "]";
 	}
-	printf("%s | %s | %s\n", out.c_str(), evs.c_str(), blocks.c_str());
+	printf("%s%s | %s | %s\n", prefix.c_str(), out.c_str(), evs.c_str(), blocks.c_str());
+}
+
+static void cleanup_case()
+{
 	// clean slate: destroy whatever is still registered, forget the regions
 	std::vector<const void*> left;
 	for (auto& kv : W().objs) left.push_back(kv.first);
-	for (const void* a : left) const_cast<E*>(static_cast<const E*>(a))->~E();
+	for (const void* a : left) { delete *reinterpret_cast<int64_t* const*>(a); W().objs.erase(a); }
 	W().errors.clear(); W().elog_reset();
 	g_regs.clear(); g_top = 0;
 }
 
-template<typename E> static void run(const std::string& mech, size_t n, long k, std::istringstream& /*extra*/)
+template<typename E> static void run(const std::string& mech, size_t n, long k, std::istringstream& extra)
 {
 	typedef momo::internal::ObjectManager<E, AMM> OM;
 	AMM mm;
@@ -179,8 +183,98 @@ template<typename E> static void run(const std::string& mech, size_t n, long k, 
 		}
 		catch (...) { outcome = "Exn"; }
 	}
+	else if (mech == "arrgrow")
+	{
+		size_t newcap = 0; extra >> newcap;
+		typedef momo::Array<E, AMM, momo::ArrayItemTraits<E, AMM>, momo::ArraySettings<0, false>> Arr;
+		{
+			Arr a = Arr::CreateCap(n, AMM());
+			for (size_t j = 0; j < n; ++j) a.AddBackNogrowVar(int64_t(100 + j));
+			begin_case(k);
+			try { a.Reserve(newcap); }
+			catch (...) { outcome = "Exn"; }
+			print_case<E>(outcome);
+		}
+		cleanup_case(); return;
+	}
+	else if (mech == "arraddback")
+	{
+		typedef momo::Array<E, AMM, momo::ArrayItemTraits<E, AMM>, momo::ArraySettings<0, false>> Arr;
+		{
+			E* arg = lives<E>(7, 1);
+			Arr a = Arr::CreateCap(n, AMM());
+			for (size_t j = 0; j < n; ++j) a.AddBackNogrowVar(int64_t(100 + j));
+			begin_case(k);
+			try { a.AddBackVar(static_cast<const E&>(*arg)); }
+			catch (...) { outcome = "Exn"; }
+			print_case<E>(outcome);
+		}
+		cleanup_case(); return;
+	}
+	else if (mech == "copyctor")
+	{
+		typedef momo::Array<E, AMM, momo::ArrayItemTraits<E, AMM>, momo::ArraySettings<0, false>> Arr;
+		{
+			Arr a = Arr::CreateCap(n, AMM());
+			for (size_t j = 0; j < n; ++j) a.AddBackNogrowVar(int64_t(100 + j));
+			begin_case(k);
+			alignas(Arr) unsigned char buf[sizeof(Arr)]; Arr* b = nullptr;
+			try { b = ::new(static_cast<void*>(buf)) Arr(a); }
+			catch (...) { outcome = "Exn"; }
+			print_case<E>(outcome);
+			if (b) b->~Arr();
+		}
+		cleanup_case(); return;
+	}
+	else if (mech == "intshrink")
+	{
+		typedef momo::Array<E, AMM, momo::ArrayItemTraits<E, AMM>, momo::ArraySettings<4, false>> Arr;
+		{
+			Arr a{ AMM() };
+			g_regs.push_back(Region{ reinterpret_cast<char*>(&a.mData.mInternalItems), 4 * sizeof(E), g_regs.size(), true });   // block 0 = internal buffer
+			a.Reserve(8);
+			for (size_t j = 0; j < n; ++j) a.AddBackNogrowVar(int64_t(100 + j));
+			begin_case(k);
+			try { a.Shrink(); }
+			catch (...) { outcome = "Exn"; }
+			std::string prefix = (std::string(outcome) == "Exn") ? "cap=" + std::to_string(a.GetCapacity()) + " " : std::string();
+			print_case<E>(outcome, prefix);
+		}
+		cleanup_case(); return;
+	}
 	else { puts("?"); return; }
-	end_case<E>(outcome);
+	print_case<E>(outcome);
+	cleanup_case();
+}
+
+
+template<typename K, typename V> static void run_kv(const std::string& mech, long k, const std::string& opt)
+{
+	typedef momo::internal::MapKeyValueTraits<K, V, AMM> KVT;
+	AMM mm; const char* outcome = "Ok";
+	K* sk = lives<K>(5, 1); V* sv = lives<V>(6, 1); K* dk = block<K>(1); V* dv = block<V>(1);
+	begin_case(k);
+	try
+	{
+		if (mech == "kvreloc") KVT::Relocate(&mm, *sk, *sv, dk, dv);
+		else
+		{
+			typename KVT::template ValueCreator<const V&> vc(mm, static_cast<const V&>(*sv));
+			if (opt == "m") KVT::Create(mm, std::move(*sk), std::move(vc), dk, dv);
+			else KVT::Create(mm, static_cast<const K&>(*sk), std::move(vc), dk, dv);
+		}
+	}
+	catch (...) { outcome = "Exn"; }
+	print_case<K>(outcome);
+	cleanup_case();
+}
+template<typename K> static void run_kv1(const std::string& mech, long k, const std::string& cv)
+{
+	if (mech == "kvcreate") { run_kv<K, kit::ElemCpo>(mech, k, cv); return; }     // value created by copy; cv = "m" | "c" selects Key&& / const Key&
+	if (cv == "N") run_kv<K, kit::ElemNtm>(mech, k, cv);
+	else if (cv == "C") run_kv<K, kit::ElemCpo>(mech, k, cv);
+	else if (cv == "T") run_kv<K, kit::ElemThm>(mech, k, cv);
+	else puts("?");
 }
 
 int main()
@@ -191,6 +285,12 @@ int main()
 	{
 		std::istringstream is(line); std::string mech, cat; size_t n = 0; long k = -1;
 		is >> mech >> cat >> n >> k;
+		if (mech == "kvreloc" || mech == "kvcreate")
+		{
+			std::string cv; is >> cv;
+			if (cat == "N") run_kv1<kit::ElemNtm>(mech, k, cv); else if (cat == "C") run_kv1<kit::ElemCpo>(mech, k, cv); else if (cat == "T") run_kv1<kit::ElemThm>(mech, k, cv); else puts("?");
+			fflush(stdout); continue;
+		}
 		if (cat == "N") run<kit::ElemNtm>(mech, n, k, is);
 		else if (cat == "C") run<kit::ElemCpo>(mech, n, k, is);
 		else if (cat == "T") run<kit::ElemThm>(mech, n, k, is);
